@@ -63,10 +63,13 @@ const (
 	tlsSelfSignedNoRedirect
 	tlsLoadDir
 	tlsCertKeyNoRedirect
+	tlsCertKeyThenBlock
+	tlsBlockThenCertKey
+	tlsLoadDirThenEmail
 	nTLS
 )
 
-var tlsNames = []string{"absent", "off", "email", "self_signed", "cert+key", "block-only", "no_redirect", "self_signed+no_redirect", "load-dir", "cert+key+no_redirect"}
+var tlsNames = []string{"absent", "off", "email", "self_signed", "cert+key", "block-only", "no_redirect", "self_signed+no_redirect", "load-dir", "cert+key+no_redirect", "cert+key,then-block", "block,then-cert+key", "load-dir,then-email"}
 
 func tlsText(v int, fx *fixtures) string {
 	switch v {
@@ -88,6 +91,14 @@ func tlsText(v int, fx *fixtures) string {
 		return "tls {\n\t\tload " + fx.LoadDir + "\n\t}"
 	case tlsCertKeyNoRedirect:
 		return "tls " + fx.Cert + " " + fx.Key + " {\n\t\tno_redirect\n\t}"
+	// two tls lines in one block (the second typically comes from a shared,
+	// imported snippet): the directive is manual if any of its lines is
+	case tlsCertKeyThenBlock:
+		return "tls " + fx.Cert + " " + fx.Key + "\n\ttls {\n\t\tprotocols tls1.2 tls1.3\n\t}"
+	case tlsBlockThenCertKey:
+		return "tls {\n\t\tprotocols tls1.2 tls1.3\n\t}\n\ttls " + fx.Cert + " " + fx.Key
+	case tlsLoadDirThenEmail:
+		return "tls {\n\t\tload " + fx.LoadDir + "\n\t}\n\ttls admin@example.com"
 	}
 	return ""
 }
@@ -175,7 +186,7 @@ func (s siteSpec) declaredHTTP() bool { return s.Scheme == "http" || s.Port == "
 // tlsExcluded: "tls directive is off, manual, self-signed or email 'off'".
 func (s siteSpec) tlsExcluded() bool {
 	switch s.TLS {
-	case tlsOff, tlsSelfSigned, tlsSelfSignedNoRedirect, tlsCertKey, tlsCertKeyNoRedirect, tlsLoadDir:
+	case tlsOff, tlsSelfSigned, tlsSelfSignedNoRedirect, tlsCertKey, tlsCertKeyNoRedirect, tlsLoadDir, tlsCertKeyThenBlock, tlsBlockThenCertKey, tlsLoadDirThenEmail:
 		return true
 	}
 	return false
